@@ -43,7 +43,8 @@ def attr_pair(mode, base):
 
 
 VALUE_MODES = ["same", "disjoint", "overlap", "src_empty", "dest_empty", "text_convertible", "unconvertible",
-               "float_to_int", "int_to_string", "multiline", "dates", "unconvertible_dest_empty", "tuples"]
+               "float_to_int", "int_to_string", "multiline", "dates", "unconvertible_dest_empty", "tuples",
+               "float_inf_to_int", "float_nan_to_int", "huge_int_to_float"]
 
 
 def values_for(mode):
@@ -68,6 +69,13 @@ def values_for(mode):
         return "int", [], "string", ["abc"], False
     if mode == "float_to_int":
         return "int", [1], "float", [2.0, 3.5], True
+    # numbers that no number of the other kind can hold
+    if mode == "float_inf_to_int":
+        return "int", [1], "float", [2.0, float("inf")], False
+    if mode == "float_nan_to_int":
+        return "int", [1], "float", [float("nan")], False
+    if mode == "huge_int_to_float":
+        return "float", [1.5], "int", [2, 2 ** 1024], False
     if mode == "int_to_string":
         return "string", ["x"], "int", [4, 5], True
     if mode == "multiline":
@@ -117,7 +125,8 @@ def node_strategy(depth):
 
 
 def cases(depth):
-    return st.fixed_dictionaries({"root": node_strategy(depth), "strict": st.booleans()})
+    return st.fixed_dictionaries({"root": node_strategy(depth), "strict": st.booleans(),
+                                  "second": st.booleans()})
 
 
 # ------------------------------------------------------------------------------------
@@ -388,10 +397,42 @@ def run_merge(dest, src, facts, strict, tag=""):
     return raised, fails
 
 
+def second_merge(dest, strict, fails):
+    """A further merge into the same destination keeps what the first one brought."""
+    mid = snap.normalize(snap.content(dest), merged=False)
+    extra = odml.Section(name=dest.name, type=dest.type)
+    odml.Property(name="second-merge-p", values=[7], parent=extra)
+    sub = odml.Section(name="second-merge-s", type="t", parent=extra)
+    odml.Property(name="q", values=["x"], parent=sub)
+    try:
+        dest.merge(extra, strict=strict)
+    except Exception as exc:
+        fails.append(failure("merge.refused_mergeable", "a second, conflict-free merge into the same Section "
+                             "raised %s: %s" % (type(exc).__name__, str(exc)[:100]), strict=strict,
+                             second=True))
+        return
+    end = snap.content(dest)
+    def nm(c):
+        return c["name"][1] if len(c["name"]) > 1 else None
+    got = {nm(c) for c in end.get("props", [])} | {nm(c) for c in end.get("sections", [])}
+    if not {"second-merge-p", "second-merge-s"} <= got:
+        fails.append(failure("merge.missing_child", "the second merge did not bring its children", second=True))
+    end["props"] = [c for c in end.get("props", []) if nm(c) != "second-merge-p"]
+    end["sections"] = [c for c in end.get("sections", []) if nm(c) != "second-merge-s"]
+    end = snap.normalize(end, merged=False)
+    if end != mid:
+        d = snap.diff(mid, end, limit=1)
+        fails.append(failure("merge.second_undoes_first", "after a second merge into the same Section the result "
+                             "of the first one changed: %r" % (d[:1],), second=True))
+
+
 def body(case):
     dest, src, facts = build_pair(case["root"])
     raised, fails = run_merge(dest, src, facts, case["strict"])
     classes = ["strict:%s" % case["strict"], "outcome:" + ("raised" if raised is not None else "merged")]
+    if raised is None and not fails and case.get("second"):
+        second_merge(dest, case["strict"], fails)
+        classes.append("second_merge")
     if facts["conflicts"]:
         classes.append("conflict:" + facts["conflicts"][0][1])
     if facts["unconvertible"]:
@@ -426,7 +467,8 @@ PLANTS = [("prop", "values", "unconvertible"), ("prop", "unit", "conflict"), ("p
           ("prop", "definition", "conflict"), ("prop", "reference", "conflict"),
           ("prop", "value_origin", "conflict"), ("prop", "values", "text_convertible"),
           ("prop", "values", "multiline"), ("prop", "values", "unconvertible_dest_empty"),
-          ("prop", "unc", "d0_conflict"),
+          ("prop", "unc", "d0_conflict"), ("prop", "values", "float_inf_to_int"),
+          ("prop", "values", "huge_int_to_float"),
           ("sec", "definition", "conflict"), ("sec", "reference", "conflict"), ("sec", "where", "both_difftype"),
           ("sec", "where", "both_casetype"), ("prop", "unit", "case")]
 
